@@ -67,7 +67,7 @@ class World:
     PROBES_EXPECTED = ["rejected-run", "rejected-batch-length", "rejected-batch-entry", "rejected-dist", "batch-ok", "run-ok",
                        "dist-exact", "dist-sampled", "wf-ok", "peer-fault-mid-batch", "over-delivery", "tracker-record-ok",
                        "tracker-bitstrings", "tracker-disk-fault", "tracker-after-disk-fault", "multi-segment", "empty-circuit",
-                       "idle-qubits", "symbolic-circuit-refused", "call-after-reject", "numpy-bit-backend", "tuple-arguments"]
+                       "idle-qubits", "symbolic-circuit-refused", "call-after-reject", "numpy-bit-backend", "tuple-arguments", "ephemeral-circuit-objects"]
 
     # ------------------------------------------------------------ generation
     def gen_plan(self, seed, tier):
@@ -90,7 +90,7 @@ class World:
                                 "file": f"/d/raw{len(runners)}.json"})
         cfg = {"n": n, "runners": runners, "clients": r.randint(1, 3), "faults": r.choice(["none", "none", "low", "medium"]),
                "fs_buffer": r.choice(BUFFER_SIZES), "rng_mode": r.choice(["real", "real", "adversarial"]),
-               "rng_policy": r.choice(POLICIES)}
+               "rng_policy": r.choice(POLICIES), "ephemeral_circuits": r.random() < 0.35}
         # circuit pool (specs)
         circs = []
         for _ in range(r.randint(3, 6)):
@@ -190,7 +190,7 @@ class World:
             for c in cfg["circuits"]:
                 circ = gen.build_circuit(c["c"])
                 n = circ.n_qubits
-                ent = {"kind": c["kind"], "c": circ, "n": n}
+                ent = {"kind": c["kind"], "c": circ, "n": n, "spec": c["c"]}
                 if c["kind"] in ("basis", "empty"):
                     bits = [0] * n
                     for o in c["c"]["ops"]:
@@ -204,7 +204,10 @@ class World:
             seams.restore()
             rng.restore()
             raise
-        return {"fs": fs, "seams": seams, "rng": rng, "runners": runners, "circs": circs, "ok_calls": 0, "after_reject": False}
+        if cfg.get("ephemeral_circuits"):
+            ctx.probe("ephemeral-circuit-objects")
+        return {"fs": fs, "seams": seams, "rng": rng, "runners": runners, "circs": circs, "ok_calls": 0, "after_reject": False,
+                "ephemeral": bool(cfg.get("ephemeral_circuits"))}
 
     def cleanup(self, st):
         st["seams"].restore()
@@ -215,7 +218,12 @@ class World:
         return st["runners"][ref % len(st["runners"])]
 
     def _circ(self, st, ref):
-        return st["circs"][ref % len(st["circs"])]
+        ent = st["circs"][ref % len(st["circs"])]
+        if st.get("ephemeral"):
+            # the client builds its circuit for this one call and drops it afterwards: circuit OBJECTS are short-lived
+            # (their addresses get reused), only their content persists
+            return {**ent, "c": gen.build_circuit(ent["spec"])}
+        return ent
 
     @staticmethod
     def _base(R):
